@@ -1,7 +1,7 @@
 """Implementation side of the C10 correspondence check.  Run under /venv with the repo on PYTHONPATH.
 
 stdin : one JSON case per line   {"m": method, "args": [ARG...]}
-        ARG  := {"p": SURF} | {"call": method, "args": [ARG...]} | {"ax": SURF}
+        ARG  := {"p": SURF} | {"call": method, "args": [ARG...]} | {"ax": SURF} | {"d": [[id, SURF], ...]}
         SURF := ["ev",n] ["sv",n] ["sym",n] ["imp",a,b] ["app",a,b] ["ex",x,a] ["mu",x,a]
                 ["mv",id,ef,sf,pos,neg,holes] ["esub",p,x,q] ["ssub",p,x,q]
                 ["neg",a] ["and",a,b] ["or",a,b] ["equiv",a,b] ["bot"] ["top"]      (notation nodes)
@@ -189,6 +189,8 @@ def main():
         def arg(a):
             if 'p' in a:
                 return build(a['p'])
+            if 'd' in a:
+                return {int(k): build(x) for k, x in a['d']}
             if 'ax' in a:
                 p = build(a['ax'])
                 T.add_axiom(p)
